@@ -157,3 +157,13 @@ PROPS["C06"] = dict(
     require_counters={"any": {"repair_symbols_compared_with_reference": 30000, "ldpc_equations_checked": 1000, "codec1_codec2_codewords_compared": 254, "null_output_slots": 100}},
     assumptions=["LDPC: the staircase makes the solution of the parity-check equations unique, so 'all equations sum to zero' determines the repair symbols"],
 )
+
+PROPS["C09"] = dict(
+    jobs=[dict(variant="asan", env={"OFH_ASAN_EXTRA": ":max_allocation_size_mb=1024"}), dict(variant="rel")],
+    rule="one case = one grid point (codec, k, r, L, m, N1, seed, role) offered to of_set_fec_parameters — value sets {0,1,2,limit-1,limit,limit+1,2*limit,2^16,2^31-1,2^31,2^32-1,wrap-around} per field, "
+         "all combinations with at most 2 (quick) / 3 (thorough) non-nominal fields — judged by the predicate of the property text with MAX_K/MAX_N read from of_get_control_parameter; points outside the limits or large run in a forked child with a watchdog; "
+         "accepted points inside the limits run a full encode/lose/decode/compare cycle; plus argument-corruption cases (NULL session, ESI out of range, wrong role, NULL table/symbol) on every entry point followed by a normal cycle on the same session. all cases non-trivial",
+    budget_s={"quick": 1200, "thorough": 7200},
+    require_counters={"any": {"points_inside_limits": 100, "points_outside_limits": 500, "usability_cycles": 50, "corrupted_calls": 200}},
+    assumptions=["symbol lengths above 70000 bytes are checked for acceptance only (no encode/decode cycle)", "ASan build: allocator_may_return_null=1 so absurd sizes behave like a failing malloc; -O3 build: RLIMIT_AS 6 GiB in the child"],
+)
